@@ -35,7 +35,17 @@ class VersionConversion:
     str
       A string representation of self.
     """
-    return gfapy.Line.SEPARATOR.join(getattr(self, "_to_"+version+"_a")())
+    fields = getattr(self, "_to_"+version+"_a")()
+    if fields and version != self._version and version in gfapy.VERSIONS:
+      # the fields are valid in the version of the line, not necessarily
+      # in the other one (e.g. names, sequences, identifiers with spaces)
+      try:
+        gfapy.Line(list(fields), version=version, vlevel=max(1, self.vlevel))
+      except gfapy.Error as err:
+        raise gfapy.RuntimeError("Conversion to {} failed\n".format(version)+
+            "Line: {}\n".format(str(self))+
+            "Error: {}".format(str(err)))
+    return gfapy.Line.SEPARATOR.join(fields)
 
   def _to_version_a(self, version):
     """
